@@ -402,6 +402,54 @@ fn t_box_realign<N: ArrayLength>(st: &mut Stats) {
     });
 }
 
+/// map / zip between plain (no drop glue) element types of every size relation -- narrowing, same
+/// size, widening, to and from zero-sized, same and different alignment -- in all four receiver
+/// forms, with a STATEFUL closure: the argument sequence must be a[0], a[1], ... and result i must
+/// be the value the i-th call returned (a block-reusing implementation that walks backwards to
+/// widen in place gives every pure closure the right values and every stateful one the wrong ones)
+fn t_resize<A: Copy + 'static, B: Copy + 'static, N: ArrayLength>(st: &mut Stats, name: &'static str, mk_a: fn(u64) -> A, rd_a: fn(&A) -> u64, mk_b: fn(u64) -> B, rd_b: fn(&B) -> u64) {
+    let n = N::USIZE;
+    for form in ["owned", "ref", "mut", "box", "box.zip", "owned.zip"] {
+        st.check_case("C08", "map.resize", name, || format!("C08 map.resize {form} {name} N={n}"), n > 0, || {
+            let a: GA<A, N> = GA::<A, N>::generate(|i| mk_a(i as u64 * 5 + 1));
+            let mut a2: GA<A, N> = GA::<A, N>::generate(|i| mk_a(i as u64 * 5 + 1));
+            let mut calls: Vec<u64> = Vec::new();
+            let mut running = 0u64;
+            let mut f = |x: u64| {
+                calls.push(x);
+                running = running.wrapping_mul(3).wrapping_add(x); // depends on every earlier call
+                mk_b(running)
+            };
+            let out: Vec<u64> = match form {
+                "owned" => a.map(|x| f(rd_a(&x))).iter().map(rd_b).collect(),
+                "ref" => (&a).map(|x| f(rd_a(x))).iter().map(rd_b).collect(),
+                "mut" => (&mut a2).map(|x| f(rd_a(x))).iter().map(rd_b).collect(),
+                "box" => Box::new(a).map(|x| f(rd_a(&x))).iter().map(rd_b).collect(),
+                "box.zip" => Box::new(a).zip(Box::new(a2), |x, _y| f(rd_a(&x))).iter().map(rd_b).collect(),
+                _ => a.zip(a2, |x, _y| f(rd_a(&x))).iter().map(rd_b).collect(),
+            };
+            let want_calls: Vec<u64> = (0..n as u64).map(|i| rd_a(&mk_a(i * 5 + 1))).collect();
+            let mut r = 0u64;
+            let want_out: Vec<u64> = want_calls.iter().map(|x| { r = r.wrapping_mul(3).wrapping_add(*x); rd_b(&mk_b(r)) }).collect();
+            expect_seq("arguments a[0], a[1], ... in ascending order", &calls, &want_calls, true)?;
+            expect_seq("result[i] = what the i-th call returned", &out, &want_out, true)
+        });
+    }
+}
+
+fn t_resize_all<N: ArrayLength>(st: &mut Stats) {
+    t_resize::<u8, [u8; 3], N>(st, "u8>[u8;3]", |v| v as u8, |a| *a as u64, |v| [v as u8, (v >> 8) as u8, (v >> 16) as u8], |b| b[0] as u64 | (b[1] as u64) << 8 | (b[2] as u64) << 16);
+    t_resize::<[u8; 3], u8, N>(st, "[u8;3]>u8", |v| [v as u8, 7, 9], |a| a[0] as u64, |v| v as u8, |b| *b as u64);
+    t_resize::<u32, (u32, u32), N>(st, "u32>(u32,u32)", |v| v as u32, |a| *a as u64, |v| (v as u32, (v >> 32) as u32), |b| b.0 as u64 | (b.1 as u64) << 32);
+    t_resize::<(u32, u32), u32, N>(st, "(u32,u32)>u32", |v| (v as u32, 1), |a| a.0 as u64, |v| v as u32, |b| *b as u64);
+    t_resize::<u16, u64, N>(st, "u16>u64", |v| v as u16, |a| *a as u64, |v| v, |b| *b);
+    t_resize::<u64, u16, N>(st, "u64>u16", |v| v, |a| *a, |v| v as u16, |b| *b as u64);
+    t_resize::<u32, f32, N>(st, "u32>f32", |v| v as u32, |a| *a as u64, |v| (v % 1000) as f32, |b| *b as u64);
+    t_resize::<u8, (), N>(st, "u8>()", |v| v as u8, |a| *a as u64, |_| (), |_| 0);
+    t_resize::<(), u8, N>(st, "()>u8", |_| (), |_| 1, |v| v as u8, |b| *b as u64);
+    t_resize::<u8, [u64; 4], N>(st, "u8>[u64;4]", |v| v as u8, |a| *a as u64, |v| [v, !v, v, 1], |b| b[0] ^ !b[1]);
+}
+
 /// The boxed forms exist for arrays that do not fit a stack: map, zip and fold over a boxed
 /// 1 MiB array on a thread with a 256 KiB stack must visit the indices in order like every other
 /// form (an implementation that moves the array out of its box first cannot run at all there).
@@ -467,6 +515,7 @@ fn all_n<N: ArrayLength>(st: &mut Stats, args: &Args) {
     }
     if args.part_on("map") {
         t_box_realign::<N>(st);
+        t_resize_all::<N>(st);
         t_map_fold::<Tok, Tok, N>(st);
         t_map_fold::<u32, u32, N>(st);
         t_map_fold::<Tok, u32, N>(st);
